@@ -7,6 +7,7 @@
 #include <req_sketch.hpp>
 #include <quantiles_sketch.hpp>
 #include <cmath>
+#include <array>
 
 using namespace sim;
 namespace ds = datasketches;
@@ -439,7 +440,82 @@ struct C08World: World {
   }
 };
 
-struct Init { Init() { static C07World a; static C08World b; registry().push_back(&a); registry().push_back(&b); } } init_;
+// C08, last clause: on long streams the rank error stays within the error the sketch itself publishes at least as often as claimed, also after
+// merging. One stream per run (k, arrival order, length, single sketch or three sketches merged) is replayed under many coin sequences that the
+// simulator owns; per query point the number of sequences in which the published bound fails is tested against the claimed rate
+// (H0: miss rate <= claim; rejected at 1e-12 by the exact binomial tail).
+double binom_tail_ge(int T, int m, double p) {   // P(X >= m), X ~ Binomial(T, p)
+  if (m <= 0) return 1.0; if (m > T) return 0.0;
+  double sum = 0; for (int x = m; x <= T; x++) { const double lg = std::lgamma(T + 1.0) - std::lgamma(x + 1.0) - std::lgamma(T - x + 1.0) + x * std::log(p) + (T - x) * std::log1p(-p); sum += std::exp(lg); if (x > m + 200 && std::exp(lg) < sum * 1e-18) break; }
+  return sum;
+}
+struct C08StatWorld: World {
+  const char* name() const override { return "c08s"; }
+  const char* step_name(int) const override { return "monte_carlo"; }
+  std::string family_of(const Plan& p) const override { static const char* kn[] = { "kll", "req", "quantiles" }; return p.cfg.empty() ? "?" : std::string(kn[p.cfg[0] % 3]) + "|published-error"; }
+  Plan generate(u64 run_seed, int tier) override { Plan p; p.run_seed = run_seed; Rng r(run_seed, "cfg"); static const i64 mult[] = { 40, 150, 400, 1000 };
+    p.cfg = { static_cast<i64>(r.below(3)), static_cast<i64>(r.below(tier ? 6 : 5)), static_cast<i64>(r.below(2)), static_cast<i64>(r.below(4)), mult[r.below(tier ? 4 : 3)], static_cast<i64>(r.below(2)), tier ? 1000 : 300 };
+    Step s; s.kind = 1; p.steps.push_back(s); return p; }
+  static i64 value_at(i64 i, i64 n, int order) { switch (order) { case 0: return i + 1; case 1: return n - i; case 2: return (i * 7919) % n + 1; default: return (i & 1) ? n - i / 2 : i / 2 + 1; } }
+  template<typename S, typename Make> std::unique_ptr<S> build(Make make, i64 n, int order, int mode) {
+    if (mode == 0) { std::unique_ptr<S> s(new S(make())); for (i64 i = 0; i < n; i++) s->update(static_cast<float>(value_at(i, n, order))); return s; }
+    std::unique_ptr<S> a(new S(make())); S b(make()), c(make());
+    for (i64 i = 0; i < n; i++) { const float v = static_cast<float>(value_at(i, n, order)); if (i % 3 == 0) a->update(v); else if (i % 3 == 1) b.update(v); else c.update(v); }
+    a->merge(b); a->merge(std::move(c)); return a;
+  }
+  void verdict(Ctx& ctx, const std::string& fp, int T, int misses, double claim, const std::string& what) {
+    ctx.check(); if (misses == 0) return;
+    const double pv = binom_tail_ge(T, misses, claim);
+    if (pv < 1e-12) ctx.fail(fp, what + ": the published bound failed in " + std::to_string(misses) + " of " + std::to_string(T) + " coin sequences, claimed at most " + std::to_string(claim * 100) + "% (P = " + hexd(pv) + ")");
+  }
+  void execute(const Plan& p, Ctx& ctx) override {
+    alloc_state().reset_counters(); alloc_state().budget = static_cast<size_t>(1) << 31;
+    const int kind = static_cast<int>(p.cfg[0] % 3), ki = static_cast<int>(p.cfg[1]), hra = static_cast<int>(p.cfg[2] & 1), order = static_cast<int>(p.cfg[3] & 3), mode = static_cast<int>(p.cfg[5] & 1), T = static_cast<int>(p.cfg[6]);
+    const i64 k = kind == 0 ? KLL_KS[ki % 8] : kind == 1 ? REQ_KS[ki % 7] : CLS_KS[ki % 7]; const i64 n = k * p.cfg[4];
+    ctx.begin_step(0, 1);
+    const std::string cell = " (k=" + std::to_string(k) + " n=" + std::to_string(n) + " order=" + std::to_string(order) + (kind == 1 ? (hra ? " hra" : " lra") : "") + (mode ? " three sketches merged" : " one sketch") + ")";
+    if (kind == 1) {
+      typedef ReqKind<float>::S S;
+      // query positions counted from the accurate end: dense around the end of the exact zone (3k items), then spreading out
+      std::vector<i64> pos; for (i64 x : { static_cast<i64>(1), k, 2 * k, 3 * k - 1, 3 * k, 3 * k + 1, 3 * k + 2, 3 * k + k / 2, 4 * k, 4 * k + k / 4, 5 * k, 6 * k - 1, 6 * k, 7 * k, 8 * k, 12 * k, 16 * k, 24 * k }) if (x < n) pos.push_back(x); for (int j = 1; j < 12; j++) pos.push_back(j * n / 12);
+      std::vector<std::array<int, 4>> miss(pos.size(), std::array<int, 4>{ { 0, 0, 0, 0 } }); std::vector<int> exact_wrong(pos.size(), 0), exact_wrong_beyond(pos.size(), 0);
+      for (int t = 0; t < T; t++) {
+        SimRandom rnd(mix(p.run_seed, static_cast<u64>(t))); RandomScope rs(rnd);
+        std::unique_ptr<S> s = build<S>([&]() { return ReqKind<float>::make(ki, hra); }, n, order, mode);
+        for (size_t q = 0; q < pos.size(); q++) { const i64 v = hra ? n - pos[q] + 1 : pos[q]; const double tr = static_cast<double>(v) / static_cast<double>(n), est = s->get_rank(static_cast<float>(v), true);
+          for (int nsd = 1; nsd <= 3; nsd++) { const double lb = s->get_rank_lower_bound(est, static_cast<uint8_t>(nsd)), ub = s->get_rank_upper_bound(est, static_cast<uint8_t>(nsd)); if (tr < lb - 1e-12 || tr > ub + 1e-12) miss[q][static_cast<size_t>(nsd)]++; if (nsd == 3 && lb == ub && std::fabs(est - tr) > 1e-12) { const double zone = static_cast<double>(3 * k) / static_cast<double>(n); if (hra ? est >= 1.0 - zone - 1e-12 : est <= zone + 1e-12) exact_wrong[q]++; else exact_wrong_beyond[q]++; } } }
+      }
+      static const double claim[4] = { 0, 0.3173, 0.0455, 0.0027 };
+      // a rank the sketch declares exact (zero-width bounds) must be exact under every coin sequence. Two cases: the estimate itself lies within the
+      // never-compacted 3k items of the accurate end (the item is just outside and its estimate is off by an item or two), or it does not.
+      // Classes are evaluated one after the other over all query points, so that a failure of one class cannot hide another class further on.
+      for (size_t q = 0; q < pos.size(); q++) if (exact_wrong_beyond[q]) ctx.fail("C08|req|rank-declared-exact-is-wrong|estimate-beyond-the-exact-zone", "item " + std::to_string(pos[q]) + " from the accurate end: wrong in " + std::to_string(exact_wrong_beyond[q]) + " of " + std::to_string(T) + " coin sequences" + cell);
+      for (size_t q = 0; q < pos.size(); q++) if (exact_wrong[q]) ctx.fail("C08|req|rank-declared-exact-is-wrong|estimate-inside-the-exact-zone", "item " + std::to_string(pos[q]) + " from the accurate end: wrong in " + std::to_string(exact_wrong[q]) + " of " + std::to_string(T) + " coin sequences" + cell);
+      for (int nsd = 3; nsd >= 1; nsd--) for (size_t q = 0; q < pos.size(); q++) verdict(ctx, "C08|req|rank-bounds-cover-less-often-than-claimed|" + std::to_string(nsd) + "-std-dev", T, miss[q][static_cast<size_t>(nsd)], claim[nsd], "item " + std::to_string(pos[q]) + " from the accurate end" + cell);
+    } else {
+      auto run = [&](auto make, auto tag) {
+        typedef decltype(tag) S;
+        std::vector<float> pts; for (int j = 1; j <= 24; j++) pts.push_back(static_cast<float>(std::max<i64>(1, j * n / 25))); pts.erase(std::unique(pts.begin(), pts.end()), pts.end());
+        std::vector<int> miss(pts.size(), 0); int pmf_miss = 0;
+        for (int t = 0; t < T; t++) {
+          SimRandom rnd(mix(p.run_seed, static_cast<u64>(t))); RandomScope rs(rnd);
+          std::unique_ptr<S> s = build<S>(make, n, order, mode);
+          const double e1 = s->get_normalized_rank_error(false), e2 = s->get_normalized_rank_error(true);
+          for (size_t q = 0; q < pts.size(); q++) if (std::fabs(s->get_rank(pts[q], true) - static_cast<double>(pts[q]) / static_cast<double>(n)) > e1 + 1e-12) miss[q]++;
+          auto pmf = s->get_PMF(pts.data(), static_cast<uint32_t>(pts.size()), true); bool bad = false; double prev = 0;
+          for (size_t q = 0; q <= pts.size(); q++) { const double cum = q < pts.size() ? static_cast<double>(pts[q]) / static_cast<double>(n) : 1.0; if (std::fabs(pmf[q] - (cum - prev)) > e2 + 1e-12) bad = true; prev = cum; }
+          if (bad) pmf_miss++;
+        }
+        for (size_t q = 0; q < pts.size(); q++) verdict(ctx, std::string("C08|") + (kind == 0 ? "kll" : "quantiles") + "|rank-error-above-published-more-often-than-claimed|single-sided", T, miss[q], 0.01, "rank of " + std::to_string(static_cast<i64>(pts[q])) + cell);
+        verdict(ctx, std::string("C08|") + (kind == 0 ? "kll" : "quantiles") + "|rank-error-above-published-more-often-than-claimed|double-sided", T, pmf_miss, 0.01, "PMF over 24 split points" + cell);
+      };
+      if (kind == 0) run([&]() { return KllKind<float>::make(ki, 0); }, KllKind<float>::make(0, 0)); else run([&]() { return ClsKind<float>::make(ki, 0); }, ClsKind<float>::make(0, 0));
+    }
+    ctx.nontrivial = true; ctx.probe("monte_carlo_streams"); ctx.probe("coin_sequences", static_cast<u64>(T)); ctx.t(static_cast<u64>(n)); ctx.t(static_cast<u64>(k));
+  }
+};
+
+struct Init { Init() { static C07World a; static C08World b; static C08StatWorld c; registry().push_back(&a); registry().push_back(&b); registry().push_back(&c); } } init_;
 } // namespace
 
 int main(int argc, char** argv) { sim::selftest_hashes(); return sim::sim_main(argc, argv); }
